@@ -5,7 +5,8 @@
     satisfiable.  Model: Model/IBB.v (pkg/provisioning/bootguard/bootguard.go
     CreateIBBSegments / GetIBBsDigest / CreateIBBDigest / IBBsMatchBPMDigest, tools.go
     StitchFITEntries, pkg/tools/ifd.go CalcImageOffset, fiano's ValidateIBB range
-    computation), the code after fix 3bb7cec.
+    computation), the code after the fixes 98fb605 (CalcImageOffset on a bare BIOS region),
+    d896621 (int segment counter) and 06c79de (SM3 name).
 
     Vocabulary (Model/IBB.v, Proofs/IBB.v):
     - [fit_entry] = (type, address, 24-bit size) as fit.GetEntries returns them, the FIT
@@ -13,11 +14,13 @@
       size, flags) of an IBBSegment; [included s]: flag bit 0 clear (the segment is hashed);
     - [layout]: which of the three probes of CalcImageOffset answered: [LIFD off size]
       (flash descriptor, BIOS region), [LCoreboot off size] (FMAP area COREBOOT),
-      [LBiosOnly] (bare BIOS region), [LNone];
+      [LBiosOnly] (bare BIOS region), [LNone]; [calc_offset l n addr] is
+      CalcImageOffset(image, addr) for an image of length [n] and layout [l];
     - [spec_offset region_end addr = region_end - (4GiB - addr)]: THE address map of the
       property text: the region that ends at image offset [region_end] is mapped so that its
-      end is at 4 GiB;  [anchored l region_end]: [l] is an IFD/coreboot layout whose region
-      [off, off+size) ends at [region_end] (< 4 GiB);
+      end is at 4 GiB;  [anchored l n region_end]: the mapped region of an image of length
+      [n] and layout [l] ends at [region_end] (< 4 GiB): the region [off, off+size) of an
+      IFD / coreboot layout, the whole image ([region_end = n]) for a bare BIOS region;
     - [seg_in_region region_end img s]: the segment's base lies in the mapped window and
       its bytes [spec_offset base, + size) lie inside the image;
     - [slice img off n]: bytes [off, off+n) of the image; [zn f i]: byte i of a file
@@ -38,38 +41,46 @@
       [spec_targets]: the list (spec_offset address, new blob) of the targeted entries;
       [disjoint_regions]: those byte ranges are pairwise disjoint.
 
-    Partial / refuted (findings in KNOWN_FINDINGS.json):
-    - everything that goes through CalcImageOffset holds for IFD and coreboot layouts
-      ([anchored]) and is REFUTED for BIOS-region-only images (C19-D9-bios-only-offset:
-      the code returns 4GiB - addr, the distance from the end);
-    - the segment list needs fewer than 256 startup entries (C19-ibbcount-uint8-wrap);
-    - CreateIBBDigest rejects the offered algorithm SM3 (C19-sm3-name-roundtrip). *)
+    No clause is partial or refuted any more: the three defects this property had found
+    (KNOWN_FINDINGS.json, "fixed") are repaired in the code and the theorems that excluded or
+    refuted them are now the full statements:
+    - CalcImageOffset on a bare BIOS region returned 4GiB - addr (fix 98fb605): [anchored]
+      now covers all three layouts (C19_offset_anchored, C19_offset_bios_only and every
+      digest / validator / stitching theorem);
+    - the uint8 segment counter (fix d896621): the segment theorems hold for any count;
+    - the SM3 name round trip of CreateIBBDigest (fix 06c79de): C19_create_digest_total holds
+      for every algorithm GetIBBsDigest offers.
+    The closed witnesses of the former defects are kept as positive regression statements
+    (C19_offset_bios_only_witness, C19_segments_many, C19_digest_bios_only_witness,
+    C19_create_digest_sm3, C19_validator_bios_only_witness, C19_stitch_bios_only_witness).
+    What remains hypothesis is listed in props/C19.json "assumptions" (the mapped region ends
+    at the end of the image for validator / stitching, segments inside the image, ...). *)
 From CSS Require Import Lib.Base Model.IBB Proofs.IBB.
 
 (* ================================================================== *)
 (** ** 1. the address map (tools.CalcImageOffset) *)
 
-(** Full flash images (descriptor) and coreboot images: an address in the mapped window
-    translates to the offset at which the property text puts it. *)
-Theorem C19_offset_anchored : forall l region_end addr,
-  anchored l region_end -> BASE - region_end <= addr < BASE ->
-  calc_offset l addr = Ok (spec_offset region_end addr).
+(** Full flash images (descriptor), coreboot images and bare BIOS regions: an address in the
+    mapped window translates to the offset at which the property text puts it. *)
+Theorem C19_offset_anchored : forall l n region_end addr,
+  anchored l n region_end -> BASE - region_end <= addr < BASE ->
+  calc_offset l n addr = Ok (spec_offset region_end addr).
 Proof. exact calc_offset_anchored. Qed.
 Print Assumptions C19_offset_anchored.
 
-(** BIOS-region-only images: the code returns the distance from the end of the image; this is
-    the offset only for the byte in the middle of the image. *)
-Theorem C19_offset_bios_only_characterised : forall len addr,
-  BASE - len <= addr <= BASE -> len < W64 ->
-  calc_offset LBiosOnly addr = Ok (BASE - addr) /\
-  (BASE - addr = spec_offset len addr <-> 2 * (BASE - addr) = len).
+(** BIOS-region-only images: the whole image is the region; the offset lies inside it. *)
+Theorem C19_offset_bios_only : forall n addr,
+  0 <= n < W32 -> BASE - n <= addr < BASE ->
+  calc_offset LBiosOnly n addr = Ok (spec_offset n addr) /\ 0 <= spec_offset n addr < n.
 Proof. exact calc_offset_bios_only. Qed.
-Print Assumptions C19_offset_bios_only_characterised.
+Print Assumptions C19_offset_bios_only.
 
-Theorem C19_offset_bios_only_refuted : exists len addr,
-  BASE - len <= addr < BASE /\ calc_offset LBiosOnly addr <> Ok (spec_offset len addr).
-Proof. exact calc_offset_bios_only_refuted_witness. Qed.
-Print Assumptions C19_offset_bios_only_refuted.
+(** the inputs on which the code used to return the distance from the end (0x10, 0x5e0000) *)
+Theorem C19_offset_bios_only_witness :
+  calc_offset LBiosOnly 65536 4294967280 = Ok 65520 /\
+  calc_offset LBiosOnly 6160384 4288806912 = Ok 0.
+Proof. exact calc_offset_bios_only_witness. Qed.
+Print Assumptions C19_offset_bios_only_witness.
 
 (* ================================================================== *)
 (** ** 2. CreateIBBSegments *)
@@ -78,8 +89,7 @@ Print Assumptions C19_offset_bios_only_refuted.
     entry, in FIT order, whatever the position and number of these entries (unconditional). *)
 Theorem C19_segments_one_per_startup_entry : forall se_count se_idx flags fit segs,
   create_ibb_segments se_count se_idx flags (Some fit) = Ok segs ->
-  segs = map (startup_seg flags) (filter is_startup fit) /\
-  count_sel is_startup fit < 256 /\ 0 <= se_idx < se_count.
+  segs = map (startup_seg flags) (filter is_startup fit) /\ 0 <= se_idx < se_count.
 Proof. exact create_ibb_segments_ok_inv. Qed.
 Print Assumptions C19_segments_one_per_startup_entry.
 
@@ -93,31 +103,27 @@ Theorem C19_segments_nth : forall flags fit segs k,
 Proof. exact create_segments_nth. Qed.
 Print Assumptions C19_segments_nth.
 
-(** The call does return, with that entry's address and size (in bytes), for every FIT with
-    fewer than 256 startup entries whose startup entries are below 4 GiB.
-    Partial: the property text allows any count; [count < 256] is needed (next theorem).
+(** The call does return, with that entry's address and size (in bytes), for every FIT (any
+    number and position of startup entries) whose startup entries are below 4 GiB.
     [fit_entry_wf] (address < 2^32, size field < 2^24) is representability: IBBSegment.Base
     is a uint32 (C19_segments_address_truncated shows what happens otherwise). *)
-Theorem C19_segments_exact_partial : forall se_count se_idx flags fit,
-  0 <= se_idx < se_count -> count_sel is_startup fit < 256 ->
+Theorem C19_segments_exact : forall se_count se_idx flags fit,
+  0 <= se_idx < se_count ->
   Forall (fun e => is_startup e = true -> fit_entry_wf e) fit ->
   create_ibb_segments se_count se_idx flags (Some fit) =
   Ok (map (fun e => mkSeg (fe_addr e) (16 * fe_size e) flags) (filter is_startup fit)).
 Proof. exact create_ibb_segments_fit. Qed.
-Print Assumptions C19_segments_exact_partial.
+Print Assumptions C19_segments_exact.
 
-(** From 256 startup entries on the call panics (uint8 counter wraps; index out of range). *)
-Theorem C19_segments_count_overflow_panics : forall se_count se_idx flags fit,
-  256 <= count_sel is_startup fit ->
-  create_ibb_segments se_count se_idx flags (Some fit) = Panic.
-Proof. exact create_ibb_segments_overflow. Qed.
-Print Assumptions C19_segments_count_overflow_panics.
-
-Theorem C19_segments_count_refuted : exists fit,
-  Forall (fun e => is_startup e = true -> fit_entry_wf e) fit /\
-  count_sel is_startup fit = 256 /\ create_ibb_segments 1 0 0 (Some fit) = Panic.
-Proof. exact create_ibb_segments_refuted_witness. Qed.
-Print Assumptions C19_segments_count_refuted.
+(** 256 startup entries (where the former uint8 counter wrapped and the call panicked) and
+    700 startup entries after the FIT header: one segment each. *)
+Theorem C19_segments_many :
+  Forall (fun e => is_startup e = true -> fit_entry_wf e) (repeat (mkFE 7 4294963200 16) 256) /\
+  count_sel is_startup (repeat (mkFE 7 4294963200 16) 256) = 256 /\
+  create_ibb_segments 1 0 0 (Some (repeat (mkFE 7 4294963200 16) 256)) = Ok (repeat (mkSeg 4294963200 256 0) 256) /\
+  create_ibb_segments 1 0 3 (Some (mkFE 0 0 701 :: repeat (mkFE 7 4294963200 1) 700)) = Ok (repeat (mkSeg 4294963200 16 3) 700).
+Proof. exact create_ibb_segments_many_witness. Qed.
+Print Assumptions C19_segments_many.
 
 (** Observation: an entry address above 4 GiB is silently truncated to 32 bits. *)
 Theorem C19_segments_address_truncated : exists e,
@@ -127,16 +133,16 @@ Print Assumptions C19_segments_address_truncated.
 
 (** coreboot images: one segment per CBFS file named fspt.bin, fallback/verstage or
     bootblock, in directory order, based at the physical address of the file's data when
-    the end of the image file maps to 4 GiB, with the file's size.  Partial: count < 256. *)
-Theorem C19_segments_cbfs_exact_partial : forall se_count se_idx flags file_size cbfs_off files,
-  0 <= se_idx < se_count -> count_sel is_ibb_file files < 256 ->
+    the end of the image file maps to 4 GiB, with the file's size. *)
+Theorem C19_segments_cbfs_exact : forall se_count se_idx flags file_size cbfs_off files,
+  0 <= se_idx < se_count ->
   0 < file_size <= BASE ->
   Forall (fun f => is_ibb_file f = true -> cbfs_file_wf file_size cbfs_off f) files ->
   create_ibb_segments_cbfs se_count se_idx flags file_size cbfs_off files =
   Ok (map (fun f => mkSeg (BASE - file_size + (cbfs_off + cf_rec f + cf_sub f)) (cf_size f) flags)
           (filter is_ibb_file files)).
 Proof. exact create_ibb_segments_cbfs_exact. Qed.
-Print Assumptions C19_segments_cbfs_exact_partial.
+Print Assumptions C19_segments_cbfs_exact.
 
 Theorem C19_segments_cbfs_one_per_file : forall se_count se_idx flags file_size cbfs_off files segs,
   create_ibb_segments_cbfs se_count se_idx flags file_size cbfs_off files = Ok segs ->
@@ -158,33 +164,31 @@ Theorem C19_digest_is_hash_of_read_bytes : forall (H : Z -> list Z -> list Z) ve
 Proof. exact ibbs_digest_is_hash. Qed.
 Print Assumptions C19_digest_is_hash_of_read_bytes.
 
-(** Full flash and coreboot images: for every offered algorithm the call succeeds and the
-    digest is the hash of the image bytes of the non-excluded segments at the offsets
-    corresponding to their physical addresses.
-    Partial: [anchored] excludes BIOS-region-only images, for which it is refuted below. *)
-Theorem C19_digest_exact_partial : forall (H : Z -> list Z -> list Z) ver alg l region_end img segs,
-  anchored l region_end -> region_end <= zlen img ->
+(** Full flash, coreboot and BIOS-region-only images: for every offered algorithm the call
+    succeeds and the digest is the hash of the image bytes of the non-excluded segments at
+    the offsets corresponding to their physical addresses. *)
+Theorem C19_digest_exact : forall (H : Z -> list Z -> list Z) ver alg l region_end img segs,
+  anchored l (zlen img) region_end -> region_end <= zlen img ->
   alg_supported ver alg = true ->
   Forall (fun s => included s = true -> seg_in_region region_end img s) segs ->
   ibbs_digest H ver alg l img segs =
   Ok (H alg (concat (map (fun s => slice img (spec_offset region_end (sg_base s)) (sg_size s))
                          (filter included segs)))).
 Proof. exact ibbs_digest_anchored_total. Qed.
-Print Assumptions C19_digest_exact_partial.
+Print Assumptions C19_digest_exact.
 
-Theorem C19_digest_bios_only_refuted : exists img segs p,
-  Forall (fun s => included s = true ->
-                   BASE - zlen img <= sg_base s < BASE /\ seg_inside (spec_offset (zlen img)) img s) segs /\
-  digest_preimage LBiosOnly img segs = Ok p /\
-  p <> concat (map (fun s => slice img (spec_offset (zlen img) (sg_base s)) (sg_size s)) (filter included segs)).
-Proof. exact digest_bios_only_refuted_witness. Qed.
-Print Assumptions C19_digest_bios_only_refuted.
+(** the former failing input: segment (4GiB-48, 16) of a 64-byte bare BIOS region is bytes
+    [16,32) (the code used to hash [48,64)) *)
+Theorem C19_digest_bios_only_witness :
+  digest_preimage LBiosOnly (seqZ 0 64) [mkSeg (4294967296 - 48) 16 0] = Ok (seqZ 16 16).
+Proof. exact digest_bios_only_witness. Qed.
+Print Assumptions C19_digest_bios_only_witness.
 
 (** Every hashed segment's read starts inside the image (otherwise the call fails). *)
 Theorem C19_digest_reads_start_inside : forall l img segs p,
   digest_preimage l img segs = Ok p ->
   forall s, In s segs -> included s = true ->
-  exists off, calc_offset l (sg_base s) = Ok off /\ 0 <= off < zlen img.
+  exists off, calc_offset l (zlen img) (sg_base s) = Ok off /\ 0 <= off < zlen img.
 Proof. exact digest_preimage_starts_inside. Qed.
 Print Assumptions C19_digest_reads_start_inside.
 
@@ -198,51 +202,57 @@ Theorem C19_create_digest_spec : forall ver l img segs algs r,
 Proof. exact create_ibb_digest_spec. Qed.
 Print Assumptions C19_create_digest_spec.
 
-(** ... and it succeeds whenever GetIBBsDigest does, for SHA1/SHA256 (both generations) and
-    SHA384 (CBnT).  Partial: SM3, which GetIBBsDigest offers for CBnT, is excluded. *)
-Theorem C19_create_digest_total_partial : forall ver l img segs p algs,
-  Forall (fun a => alg_name_roundtrips ver a = true) algs ->
+(** ... and it succeeds whenever GetIBBsDigest does, for every algorithm GetIBBsDigest
+    offers: SHA1/SHA256 (both generations), SHA384 and SM3 (CBnT). *)
+Theorem C19_create_digest_total : forall ver l img segs p algs,
+  Forall (fun a => alg_supported ver a = true) algs ->
   digest_preimage l img segs = Ok p ->
   create_ibb_digest ver algs l img segs = Ok (map (fun a => (a, p)) algs).
 Proof. exact create_ibb_digest_total. Qed.
-Print Assumptions C19_create_digest_total_partial.
+Print Assumptions C19_create_digest_total.
 
-Theorem C19_create_digest_sm3_refuted : exists l img segs,
-  create_ibb_digest 2 [18] l img segs = Err 5 /\
-  exists p, get_ibbs_digest 2 18 l img segs = Ok (18, p).
-Proof. exact create_ibb_digest_sm3_refuted_witness. Qed.
-Print Assumptions C19_create_digest_sm3_refuted.
+(** the name round trip loses no offered algorithm *)
+Theorem C19_create_digest_offers_what_get_offers : forall ver a,
+  alg_name_roundtrips ver a = alg_supported ver a.
+Proof. exact alg_roundtrips_iff_supported. Qed.
+Print Assumptions C19_create_digest_offers_what_get_offers.
+
+(** the former failing input: a CBnT digest list with SM3 (id 18) *)
+Theorem C19_create_digest_sm3 :
+  create_ibb_digest 2 [11; 18; 12] (LIFD 0 16) (seqZ 0 16) [mkSeg (4294967296 - 8) 4 0] =
+  Ok [(11, seqZ 8 4); (18, seqZ 8 4); (12, seqZ 8 4)].
+Proof. exact create_ibb_digest_sm3_witness. Qed.
+Print Assumptions C19_create_digest_sm3.
 
 (* ================================================================== *)
 (** ** 4. the suite's independent validation accepts the generated manifest *)
 
-(** Partial: layouts whose mapped region ends at the end of the image (IFD BIOS region /
-    COREBOOT area last); refuted for BIOS-region-only images. *)
-Theorem C19_validator_accepts_partial : forall l img segs p,
-  anchored l (zlen img) ->
+(** Layouts whose mapped region ends at the end of the image (IFD BIOS region / COREBOOT area
+    last, or a bare BIOS region). *)
+Theorem C19_validator_accepts : forall l img segs p,
+  anchored l (zlen img) (zlen img) ->
   Forall (fun s => included s = true ->
                    BASE - zlen img <= sg_base s < BASE /\ seg_inside (spec_offset (zlen img)) img s) segs ->
   digest_preimage l img segs = Ok p ->
   ibbs_match l img segs = Ok true.
 Proof. exact ibbs_match_accepts. Qed.
-Print Assumptions C19_validator_accepts_partial.
+Print Assumptions C19_validator_accepts.
 
 (** the two address maps read the same bytes *)
-Theorem C19_validator_same_bytes_partial : forall l img segs p,
-  anchored l (zlen img) ->
+Theorem C19_validator_same_bytes : forall l img segs p,
+  anchored l (zlen img) (zlen img) ->
   Forall (fun s => included s = true ->
                    BASE - zlen img <= sg_base s < BASE /\ seg_inside (spec_offset (zlen img)) img s) segs ->
   digest_preimage l img segs = Ok p ->
   validator_preimage img segs = Ok p.
 Proof. exact validator_agrees. Qed.
-Print Assumptions C19_validator_same_bytes_partial.
+Print Assumptions C19_validator_same_bytes.
 
-Theorem C19_validator_bios_only_refuted : exists img segs,
-  Forall (fun s => included s = true ->
-                   BASE - zlen img <= sg_base s < BASE /\ seg_inside (spec_offset (zlen img)) img s) segs /\
-  ibbs_match LBiosOnly img segs = Ok false.
-Proof. exact ibbs_match_bios_only_refuted_witness. Qed.
-Print Assumptions C19_validator_bios_only_refuted.
+(** the former failing input is accepted *)
+Theorem C19_validator_bios_only_witness :
+  ibbs_match LBiosOnly (seqZ 0 64) [mkSeg (4294967296 - 48) 16 0] = Ok true.
+Proof. exact ibbs_match_bios_only_witness. Qed.
+Print Assumptions C19_validator_bios_only_witness.
 
 (* ================================================================== *)
 (** ** 5. StitchFITEntries *)
@@ -251,32 +261,32 @@ Print Assumptions C19_validator_bios_only_refuted.
     outside every range [CalcImageOffset(entry address), + len(new blob)) keeps its value. *)
 Theorem C19_stitch_frame_code_offsets : forall l img fit acm bpm km i,
   0 <= i ->
-  outside (match fit with Some es => targets l es acm bpm km | None => [] end) i ->
+  outside (match fit with Some es => targets l (zlen img) es acm bpm km | None => [] end) i ->
   zn (fst (stitch l img fit acm bpm km)) i = zn img i.
 Proof. exact stitch_frame. Qed.
 Print Assumptions C19_stitch_frame_code_offsets.
 
 (** The clause of the property: only bytes inside the targeted FIT entries' regions change
-    (whether the call succeeds or fails) ...  Partial: [anchored]. *)
-Theorem C19_stitch_only_entry_regions_partial : forall l img fit acm bpm km i,
-  anchored l (zlen img) -> entries_in_window (zlen img) fit -> 0 <= i ->
+    (whether the call succeeds or fails) ... *)
+Theorem C19_stitch_only_entry_regions : forall l img fit acm bpm km i,
+  anchored l (zlen img) (zlen img) -> entries_in_window (zlen img) fit -> 0 <= i ->
   (forall e, In e fit -> ~ in_entry_region (zlen img) e acm bpm km i) ->
   zn (fst (stitch l img (Some fit) acm bpm km)) i = zn img i.
 Proof. exact stitch_frame_region. Qed.
-Print Assumptions C19_stitch_only_entry_regions_partial.
+Print Assumptions C19_stitch_only_entry_regions.
 
 (** ... and the file keeps its length (when the new ACM, if any, ends inside the image). *)
-Theorem C19_stitch_length_partial : forall l img fit acm bpm km,
-  anchored l (zlen img) -> entries_in_window (zlen img) fit ->
+Theorem C19_stitch_length : forall l img fit acm bpm km,
+  anchored l (zlen img) (zlen img) -> entries_in_window (zlen img) fit ->
   Forall (fun e => fe_type e = T_SACM -> spec_offset (zlen img) (fe_addr e) + zlen acm <= zlen img) fit ->
   zlen (fst (stitch l img (Some fit) acm bpm km)) = zlen img.
 Proof. exact stitch_length_region. Qed.
-Print Assumptions C19_stitch_length_partial.
+Print Assumptions C19_stitch_length.
 
 (** A KM/BPM that is written lies at the entry's offset and inside the entry's region,
     which lies inside the image. *)
-Theorem C19_stitch_manifest_within_entry_partial : forall l orig file e new file',
-  anchored l (zlen orig) ->
+Theorem C19_stitch_manifest_within_entry : forall l orig file e new file',
+  anchored l (zlen orig) (zlen orig) ->
   0 <= fe_addr e < W64 -> 0 <= fe_size e < 16777216 ->
   new <> [] ->
   stitch_manifest l orig file e new = (file', true) ->
@@ -284,18 +294,18 @@ Theorem C19_stitch_manifest_within_entry_partial : forall l orig file e new file
   file' = write_at file off new /\
   0 <= off /\ off + zlen new <= off + fe_size e /\ off + fe_size e <= zlen orig.
 Proof. exact stitch_manifest_within_entry. Qed.
-Print Assumptions C19_stitch_manifest_within_entry_partial.
+Print Assumptions C19_stitch_manifest_within_entry.
 
 (** An ACM that is written replaces, at the entry's offset, exactly as many bytes as the
     header found there declares. *)
-Theorem C19_stitch_acm_within_entry_partial : forall l re file e new file',
-  anchored l re -> BASE - re <= fe_addr e < BASE -> new <> [] ->
-  stitch_acm l file e new = (file', true) ->
+Theorem C19_stitch_acm_within_entry : forall l n re file e new file',
+  anchored l n re -> BASE - re <= fe_addr e < BASE -> new <> [] ->
+  stitch_acm l n file e new = (file', true) ->
   let off := spec_offset re (fe_addr e) in
   file' = write_at file off new /\ 0 <= off < zlen file /\
   zlen new = acm_size (read_padded file off 32) /\ zlen new <> 0.
 Proof. exact stitch_acm_within_entry. Qed.
-Print Assumptions C19_stitch_acm_within_entry_partial.
+Print Assumptions C19_stitch_acm_within_entry.
 
 (** An entry whose guard fails is not written. *)
 Theorem C19_stitch_failed_entry_untouched : forall l orig file e acm bpm km file',
@@ -305,36 +315,34 @@ Print Assumptions C19_stitch_failed_entry_untouched.
 
 (** Re-reading: after a successful call every targeted entry holds the new contents,
     provided the written ranges do not overlap (a later entry overwrites an earlier one
-    otherwise).  Partial: [anchored]. *)
-Theorem C19_stitch_reread_partial : forall l img fit acm bpm km file',
-  anchored l (zlen img) -> entries_in_window (zlen img) fit ->
+    otherwise). *)
+Theorem C19_stitch_reread : forall l img fit acm bpm km file',
+  anchored l (zlen img) (zlen img) -> entries_in_window (zlen img) fit ->
   stitch l img (Some fit) acm bpm km = (file', true) ->
   disjoint_regions (spec_targets (zlen img) fit acm bpm km) ->
   forall e, In e fit ->
   forall k, 0 <= k < zlen (new_blob e acm bpm km) ->
   zn file' (spec_offset (zlen img) (fe_addr e) + k) = zn (new_blob e acm bpm km) k.
 Proof. exact stitch_reread_region. Qed.
-Print Assumptions C19_stitch_reread_partial.
+Print Assumptions C19_stitch_reread.
 
 (** the same in the code's own terms, for every layout *)
 Theorem C19_stitch_reread_code_offsets : forall l orig acm bpm km es file file',
   stitch_loop l orig file es acm bpm km = (file', true) ->
-  disjoint_regions (targets l es acm bpm km) ->
-  forall off new, In (off, new) (targets l es acm bpm km) ->
+  disjoint_regions (targets l (zlen orig) es acm bpm km) ->
+  forall off new, In (off, new) (targets l (zlen orig) es acm bpm km) ->
   forall k, 0 <= k < zlen new -> zn file' (off + k) = zn new k.
 Proof. exact stitch_loop_reread. Qed.
 Print Assumptions C19_stitch_reread_code_offsets.
 
-(** BIOS-region-only image: a KM that fits its entry is written somewhere else (here: past
-    the end of the file, which grows) and the entry does not read back as the new KM. *)
-Theorem C19_stitch_bios_only_refuted : exists img e km,
-  BASE - zlen img <= fe_addr e < BASE /\
-  let off := spec_offset (zlen img) (fe_addr e) in
-  0 <= off /\ off + zlen km <= off + fe_size e <= zlen img /\
-  exists file', stitch LBiosOnly img (Some [e]) [] [] km = (file', true) /\
-                zlen file' <> zlen img /\ zn file' off <> zn km 0.
-Proof. exact stitch_bios_only_refuted_witness. Qed.
-Print Assumptions C19_stitch_bios_only_refuted.
+(** the former failing input: a 2-byte KM for the 16-byte KM entry at the start of a 64-byte
+    bare BIOS region goes to offset 0, the file keeps its length and the entry reads back
+    (the code used to append the KM at offset 64) *)
+Theorem C19_stitch_bios_only_witness : exists file',
+  stitch LBiosOnly (seqZ 0 64) (Some [mkFE 11 (4294967296 - 64) 16]) [] [] [255; 254] = (file', true) /\
+  zlen file' = 64 /\ zn file' 0 = 255 /\ zn file' 1 = 254 /\ zn file' 2 = 2.
+Proof. exact stitch_bios_only_witness. Qed.
+Print Assumptions C19_stitch_bios_only_witness.
 
 (** Observation: the call is not atomic; entries stitched before a failing one stay written
     (inside their own regions, so the frame clause is not affected). *)
@@ -347,10 +355,14 @@ Print Assumptions C19_stitch_error_keeps_earlier_writes.
 (** ** the hypotheses are satisfiable *)
 
 (** a 64-byte "flash image" with a descriptor-style layout: BIOS region [16, 64) *)
-Example ex_anchored : anchored (LIFD 16 48) 64.
+Example ex_anchored : anchored (LIFD 16 48) 64 64.
 Proof. cbn. unfold W32. lia. Qed.
 
-Example ex_anchored_coreboot : anchored (LCoreboot 32 32) (zlen (seqZ 0 64)).
+Example ex_anchored_coreboot : anchored (LCoreboot 32 32) (zlen (seqZ 0 64)) (zlen (seqZ 0 64)).
+Proof. cbn. unfold W32. lia. Qed.
+
+(** a 64-byte bare BIOS region *)
+Example ex_anchored_bios_only : anchored LBiosOnly (zlen (seqZ 0 64)) (zlen (seqZ 0 64)).
 Proof. cbn. unfold W32. lia. Qed.
 
 (** a FIT with the startup entries at positions 1 and 3 of 4 *)
